@@ -147,7 +147,7 @@ EXTRA4 = {
  'C05': 'In-place writes on a view of a file that is the input on at least one path are reported.',
  'C06': 'Besides coordinate keys pncbo copies a variable only when the right operand lacks it; the parse of mask definitions keeps every argument (5 cases).',
  'C08': 'A day carry is never computed from a value already reduced modulo the day length; the cloud/rain size probe tries the layout the writer emits first.',
- 'C10': 'updatetflag stores SDATE/STIME from the rebuilt TFLAG; adddims deletes every dimension only some FTYPE branch creates.',
+ 'C10': 'updatetflag stores SDATE/STIME from the rebuilt TFLAG; adddims deletes every dimension only some FTYPE branch creates; applyAlongDimensions has a TSTEP handler that stores SDATE/STIME from decoded times and replaces the arithmetically reduced TFLAG (R-TIMEREDUCE; defect fixed in /repo 3bd4abb).',
  'C11': 'No arithmetic on a YYYYDDD-coded attribute in the new SDATE; the TSTEP store is controlled only by the selector and the number of retained times.',
  'C12': 'calendar and units are read from the time variable before the name is re-bound to bounds.',
  'C13': 'LAY, TSTEP and the reshape of the variable getter agree on the records per step; no generator-valued attribute is iterated by a method; __timerecords measures from (start_date, start_time).',
